@@ -9,6 +9,7 @@ package verifnd
 
 import (
 	"fmt"
+	"runtime"
 )
 
 // Run is the native state of one harness execution.
@@ -187,3 +188,20 @@ func IteBool(c bool, a, b bool) bool {
 	}
 	return b
 }
+
+// AllocStart resets the allocation counter; AllocBytes returns the bytes requested through
+// make/new/append/map growth since then. Under the executor this is a term over the symbolic
+// sizes; natively it is the runtime's TotalAlloc delta. INTERCEPTED.
+func AllocStart() {
+	var ms runtime.MemStats
+	runtime.ReadMemStats(&ms)
+	allocBase = ms.TotalAlloc
+}
+
+func AllocBytes() int64 {
+	var ms runtime.MemStats
+	runtime.ReadMemStats(&ms)
+	return int64(ms.TotalAlloc - allocBase)
+}
+
+var allocBase uint64
